@@ -20,13 +20,40 @@ def workbase():
     return _base
 
 
+def _sweep(top):
+    """remove scratch roots whose owning process no longer exists (a killed run cannot clean up after itself)"""
+    import re
+    try:
+        names = os.listdir(top)
+    except OSError:
+        return
+    for n in names:
+        m = re.match(r"^verif-(\d+)-", n)
+        if not m or os.path.exists("/proc/%s" % m.group(1)):
+            continue
+        d = os.path.join(top, n)
+        try:
+            # older than any tier can run: a root that another process namespace is still using is never this old
+            if time.time() - os.stat(d).st_mtime > 2 * 3600:
+                shutil.rmtree(d, ignore_errors=True)
+        except OSError:
+            pass
+
+
 def _mk():
+    """one scratch root per check run (created by the first process that needs it, inherited by pool workers through the
+    environment, removed by its creator at exit); every process gets its own directory below it"""
     global _base, _base_pid
-    root = SHM or os.path.join(VERIF, "work", "tmp")
-    os.makedirs(root, exist_ok=True)
-    _base = tempfile.mkdtemp(prefix="verif-%d-" % os.getpid(), dir=root)
+    root = os.environ.get("VERIF_WORKROOT")
+    if not root or not os.path.isdir(root):
+        top = SHM or os.path.join(VERIF, "work", "tmp")
+        os.makedirs(top, exist_ok=True)
+        _sweep(top)
+        root = tempfile.mkdtemp(prefix="verif-%d-" % os.getpid(), dir=top)
+        os.environ["VERIF_WORKROOT"] = root
+        atexit.register(_cleanup, root, os.getpid())
+    _base = tempfile.mkdtemp(prefix="w%d-" % os.getpid(), dir=root)
     _base_pid = os.getpid()
-    atexit.register(_cleanup, _base, os.getpid())
 
 
 _base_pid = None
@@ -158,6 +185,7 @@ def pool(n=None):
     global _pool
     if _pool is None:
         n = n or int(os.environ.get("VERIF_JOBS", os.cpu_count() or 4))
+        workbase()          # fixes the scratch root before the workers are forked
         _pool = multiprocessing.Pool(n, initializer=_init_worker)
         atexit.register(close_pool)
     return _pool
